@@ -199,8 +199,8 @@ def _cls(orc):
     return "isolated_face" if orc.isolated else "all_faces_have_neighbours"
 
 
-def check_grid(rec, source, order, mesh, orc):
-    g = grid_of(mesh)
+def check_grid(rec, source, order, mesh, orc, grid=None):
+    g = grid_of(mesh) if grid is None else grid
     sc = f"{order}:{source}:{_cls(orc)}"
     inp = _desc(mesh["name"], mesh["faces"])
     first = {}
@@ -567,3 +567,85 @@ def incidence(tier, seed):
         if child is not None and child.poll() is None:
             child.kill()
         raise
+
+
+# ------------------------------------------------------------------------------------------------ consumers leave the tables intact
+_TABLES = ("node_face_connectivity", "edge_face_connectivity", "face_face_connectivity", "hole_edge_indices",
+           "edge_node_connectivity", "face_edge_connectivity", "face_node_connectivity")
+
+
+def consumers(tier, seed):
+    """The incidence tables a grid reports are still the exact ones after operations that only READ them (differences and
+    gradients over edges, topological aggregations, integration, subsetting, area / bounds construction, dual construction):
+    every table is compared with a copy taken before the operation, and a table first built AFTER the operation is checked
+    against the oracle."""
+    import uxarray as ux
+    rng = random.Random(seed * 9176 + 41)
+    rec = _Rec()
+    meshes = [m for m in mg.catalogue(tier, seed) if m["n_face"] <= (80 if tier == "thorough" else 30)]
+    open_m = [m for m in meshes if not m["closed"]]
+    closed_m = [m for m in meshes if m["closed"]]
+    rng.shuffle(open_m)
+    pick = open_m[: (40 if tier == "thorough" else 7)] + closed_m[: (6 if tier == "thorough" else 2)]
+    distinct = set()
+
+    def ops(g, mesh):
+        nf, nn = mesh["n_face"], mesh["n_node"]
+        fda = ux.UxDataArray(np.arange(nf, dtype=float) * 1.5 + 1.0, dims=["n_face"], uxgrid=g, name="f")
+        fda2 = ux.UxDataArray(np.arange(2 * nf, dtype=float).reshape(2, nf), dims=["time", "n_face"], uxgrid=g, name="f2")
+        nda = ux.UxDataArray(np.arange(nn, dtype=float) - 2.0, dims=["n_node"], uxgrid=g, name="n")
+        yield "UxDataArray.gradient()", lambda: fda.gradient()
+        yield "UxDataArray.gradient(normalize=True) on (time, n_face)", lambda: fda2.gradient(normalize=True)
+        yield "UxDataArray.difference('edge') of face data", lambda: fda.difference(destination="edge")
+        yield "UxDataArray.difference('edge') of node data", lambda: nda.difference(destination="edge")
+        yield "topological_mean('face')", lambda: nda.topological_mean(destination="face")
+        yield "topological_max('edge')", lambda: nda.topological_max(destination="edge")
+        yield "integrate()", lambda: fda.integrate()
+        yield "Grid.isel(n_face=...)", lambda: g.isel(n_face=list(range(0, nf, 2)))
+        yield "Grid.isel(n_node=...)", lambda: g.isel(n_node=[0, nn - 1])
+        yield "face_areas / bounds", lambda: (g.face_areas, g.bounds)
+        if mesh["closed"]:
+            yield "get_dual()", lambda: g.get_dual()
+
+    for mesh in pick:
+        orc = Oracle(np.asarray(mesh["faces"]), mesh["n_node"])
+        if not orc.manifold:
+            continue
+        probe = grid_of(mesh)
+        names = [name for name, _ in ops(probe, mesh)]
+        for oi, opname in enumerate(names):
+            for prepared in ("all_tables_built", "nothing_built"):
+                rec.cases += 1
+                distinct.add((mesh["name"], opname, prepared))
+                g = grid_of(mesh)
+                before = {}
+                if prepared == "all_tables_built":
+                    try:
+                        for t in _TABLES:
+                            before[t] = np.array(getattr(g, t).values, copy=True)
+                    except Exception:  # noqa: BLE001   (construction failures are the main pass's business)
+                        continue
+                fn = [f for n_, f in ops(g, mesh)][oi]
+                try:
+                    fn()
+                except Exception:  # noqa: BLE001   (whether the operation works is another property's business)
+                    pass
+                inp = {"mesh": _desc(mesh["name"], np.asarray(mesh["faces"])), "operation": opname, "grid_prepared": prepared}
+                sc = f"consumer:{opname.split('(')[0]}"
+                if prepared == "all_tables_built":
+                    for t, v in before.items():
+                        try:
+                            now = np.asarray(getattr(g, t).values)
+                        except Exception as e:  # noqa: BLE001
+                            rec.check(False, f"{t} still readable after a read-only operation", sc, f"{t} raises {type(e).__name__} after {opname}",
+                                      inp, type(e).__name__, "the table")
+                            continue
+                        rec.check(now.shape == v.shape and np.array_equal(now, v), f"{t} unchanged by a read-only operation", sc,
+                                  f"{t} reported by the grid changed after {opname}", inp, _small(now), _small(v))
+                else:
+                    # tables first built after the operation: against the oracle
+                    check_grid(rec, "after_" + sc, "edges_then_edge_face", mesh, orc, grid=g)
+    bound = (f"{len(pick)} manifold catalogue meshes (open patches with boundary edges first, closed ones for the dual) x 11 read-only "
+             f"operations x grid prepared with all tables built (compared with copies taken before) or nothing built (tables first "
+             f"built afterwards, checked against the oracle)")
+    return result(rec.cases, len(distinct), rec.failures, bound, [{"mesh": m["name"]} for m in pick[:3]])
